@@ -28,6 +28,7 @@ EXPLANATION = (
     "(C06's overlap-save rules re-evaluated); (R7) the read plan the streamed dedispersion consumes satisfies C01's rules "
     "(re-evaluated here). Not decided: delay values, monotonicity, float32 rounding-boundary cases, restoration of a pulse. "
     "Since F34/F38: the delay arrays keep one entry per channel (no unqualified squeeze; exactly the DM axis of a scalar DM is dropped) (R2), and the array handed to every index-form kernel is get_dmdelays(dm) minus a lead min(0, min delay), so that no index t + delay is negative (R3)."
+    ' Since wave 6: every row of the valid-samples DM transform starts at the same input column, the maximum positive shift over all DMs (R4 origin).'
 )
 KMOD = "sigpyproc.core.kernels"
 PARAMS = "sigpyproc.params"
@@ -247,51 +248,63 @@ def run(prog: Program, res: Result, tier: str) -> None:
     cd = prog.func(PARAMS, "compute_dmdelays")
     flow = flow_of(cd)
     rets = [s for s in body_walk(cd.node) if isinstance(s, ast.Return)]
-    if len(rets) != 1:
-        raise AnalysisError("compute_dmdelays: expected one return")
-    law = [s for s in body_walk(cd.node) if isinstance(s, ast.Assign) and norm(s.targets[0]) == "delays"
-           and not isinstance(parent(s), ast.If)]
-    key = "law"
-    ref = ast.parse("dm * DM_CONSTANT_LK * ((freqs**-2) - (ref_freq**-2))", mode="eval").body
-    if len(law) == 1 and PolyEnv().poly(law[0].value) == PolyEnv().poly(ref):
-        res.ok("R2", cd, law[0], "delay = dm * DM_CONSTANT_LK * (f^-2 - fref^-2): zero at fref, linear (antisymmetric) in DM", key=key)
-    else:
-        res.bad("R2", cd, law[0] if law else cd.node, "the delay formula is not dm * DM_CONSTANT_LK * (freqs**-2 - ref_freq**-2)", key=key,
-                construct="delay law")
+    # the function as a whole equals its definition (path-wise normal form: any arrangement of temporaries, early returns or
+    # conditional expressions); the finer rules below name the clause when it does not, and need the one-return shape for that
+    from .. import kernelspec as _ks9
+    v9, why9 = _ks9.compare(cd, "compute_dmdelays")
+    if v9 == "incomparable":
+        raise AnalysisError(f"compute_dmdelays cannot be compared with its reference definition: {why9[0]}")
+    (res.ok if v9 == "same" else res.bad)("R2", cd, cd.node, ("; ".join(why9))[:600], construct="compute_dmdelays", key="compute_dmdelays:definition")
+    if v9 == "same":
+        for key_ in ("law", "rounding", "shape"):
+            res.ok("R2", cd, cd.node, "decided with the definition: the delay law, round-to-nearest before the int32 cast, only a scalar DM's axis dropped", key=key_)
     k = prog.const(PARAMS, "DM_CONSTANT_LK")
     key = "constant"
     if isinstance(k, ast.Constant) and abs(float(k.value) - 4.148808e3) < 1e-9:
         res.ok("R2", cd, k, "DM_CONSTANT_LK = 4.148808e3", key=key)
     else:
         res.bad("R2", cd, k, f"DM_CONSTANT_LK is {norm(k)}, not 4.148808e3", key=key)
-    conv = [s for s in body_walk(cd.node) if isinstance(s, ast.Assign) and norm(s.targets[0]) == "delays" and isinstance(parent(s), ast.If)]
-    key = "rounding"
-    okc = len(conv) == 1 and norm(parent(conv[0]).test) == "in_samples" and norm(conv[0].value) == "(delays / tsamp).round().astype(np.int32)"
-    if not okc and len(conv) == 1:
-        v = conv[0].value
-        # accept np.round(delays / tsamp).astype(np.int32) / np.rint
-        okc = isinstance(v, ast.Call) and isinstance(v.func, ast.Attribute) and v.func.attr == "astype" and norm(v.args[0]) in ("np.int32", "'int32'") \
-            and norm(v.func.value) in ("np.round(delays / tsamp)", "np.rint(delays / tsamp)", "(delays / tsamp).round()")
-    if okc:
-        res.ok("R2", cd, conv[0], "sample delays = round(delay / tsamp) then int32 (round-to-nearest before the integer cast)", key=key)
-    else:
-        res.bad("R2", cd, conv[0] if conv else cd.node, "the conversion to samples is not round(delays / tsamp) followed by the int32 cast "
-                "(a bare cast truncates toward zero)", key=key, construct="sample conversion")
-    f32 = [s for s in body_walk(cd.node) if isinstance(s, ast.Assign) and norm(s.targets[0]) in ("freqs", "dm") and "float32" in norm(s.value)]
-    dmshape = [s for s in body_walk(cd.node) if isinstance(s, ast.Assign) and norm(s.targets[0]) == "dm" and "[:, np.newaxis]" in norm(s.value)]
-    key = "shape"
-    fcd = flow_of(cd)
-    scalar_sel = False
-    if len(rets) == 1 and isinstance(rets[0].value, ast.IfExp) and norm(rets[0].value.body) == "delays[0]" and norm(rets[0].value.orelse) == "delays":
-        # the choice is made on the dimensionality of the DM *as given* (before it is reshaped to a column)
-        tx = fcd.expand(rets[0].value.test, fcd.cfg.node_for(rets[0]))
-        from ..normalform import canon as _canon_r
-        scalar_sel = strip_labels(_canon_r(tx)) in (_canon_r("np.ndim(dm) == 0"), _canon_r("np.isscalar(dm)"), _canon_r("np.asarray(dm).ndim == 0"))
-    if dmshape and scalar_sel:
-        res.ok("R2", cd, rets[0], "DM axis is broadcast against the frequency axis; only the DM axis of a scalar DM is dropped, so there is one delay "
-               "per channel for any channel count", key=key)
-    else:
-        res.bad("R2", cd, rets[0], "compute_dmdelays does not return (ndm, nchan) delays with exactly the DM axis of a scalar DM removed", key=key)
+    if v9 != "same":
+        # name the clause that fails (these read the one-return, `delays`-named shape of the function)
+        if len(rets) != 1:
+            rets = [cd.node]
+        law = [s for s in body_walk(cd.node) if isinstance(s, ast.Assign) and norm(s.targets[0]) == "delays"
+               and not isinstance(parent(s), ast.If)]
+        key = "law"
+        ref = ast.parse("dm * DM_CONSTANT_LK * ((freqs**-2) - (ref_freq**-2))", mode="eval").body
+        if len(law) == 1 and PolyEnv().poly(law[0].value) == PolyEnv().poly(ref):
+            res.ok("R2", cd, law[0], "delay = dm * DM_CONSTANT_LK * (f^-2 - fref^-2): zero at fref, linear (antisymmetric) in DM", key=key)
+        else:
+            res.bad("R2", cd, law[0] if law else cd.node, "the delay formula is not dm * DM_CONSTANT_LK * (freqs**-2 - ref_freq**-2)", key=key,
+                    construct="delay law")
+        conv = [s for s in body_walk(cd.node) if isinstance(s, ast.Assign) and norm(s.targets[0]) == "delays" and isinstance(parent(s), ast.If)]
+        key = "rounding"
+        okc = len(conv) == 1 and norm(parent(conv[0]).test) == "in_samples" and norm(conv[0].value) == "(delays / tsamp).round().astype(np.int32)"
+        if not okc and len(conv) == 1:
+            v = conv[0].value
+            # accept np.round(delays / tsamp).astype(np.int32) / np.rint
+            okc = isinstance(v, ast.Call) and isinstance(v.func, ast.Attribute) and v.func.attr == "astype" and norm(v.args[0]) in ("np.int32", "'int32'") \
+                and norm(v.func.value) in ("np.round(delays / tsamp)", "np.rint(delays / tsamp)", "(delays / tsamp).round()")
+        if okc:
+            res.ok("R2", cd, conv[0], "sample delays = round(delay / tsamp) then int32 (round-to-nearest before the integer cast)", key=key)
+        else:
+            res.bad("R2", cd, conv[0] if conv else cd.node, "the conversion to samples is not round(delays / tsamp) followed by the int32 cast "
+                    "(a bare cast truncates toward zero)", key=key, construct="sample conversion")
+        f32 = [s for s in body_walk(cd.node) if isinstance(s, ast.Assign) and norm(s.targets[0]) in ("freqs", "dm") and "float32" in norm(s.value)]
+        dmshape = [s for s in body_walk(cd.node) if isinstance(s, ast.Assign) and norm(s.targets[0]) == "dm" and "[:, np.newaxis]" in norm(s.value)]
+        key = "shape"
+        fcd = flow_of(cd)
+        scalar_sel = False
+        if len(rets) == 1 and isinstance(rets[0].value, ast.IfExp) and norm(rets[0].value.body) == "delays[0]" and norm(rets[0].value.orelse) == "delays":
+            # the choice is made on the dimensionality of the DM *as given* (before it is reshaped to a column)
+            tx = fcd.expand(rets[0].value.test, fcd.cfg.node_for(rets[0]))
+            from ..normalform import canon as _canon_r
+            scalar_sel = strip_labels(_canon_r(tx)) in (_canon_r("np.ndim(dm) == 0"), _canon_r("np.isscalar(dm)"), _canon_r("np.asarray(dm).ndim == 0"))
+        if dmshape and scalar_sel:
+            res.ok("R2", cd, rets[0], "DM axis is broadcast against the frequency axis; only the DM axis of a scalar DM is dropped, so there is one delay "
+                   "per channel for any channel count", key=key)
+        else:
+            res.bad("R2", cd, rets[0], "compute_dmdelays does not return (ndm, nchan) delays with exactly the DM axis of a scalar DM removed", key=key)
 
     # ---- R1 single source -----------------------------------------------------------------------
     gd = prog.func(HEADER, "Header.get_dmdelays")
@@ -578,14 +591,28 @@ def _valid_width(prog: Program, res: Result) -> None:
             # against the tstart the caller records
             origin = env().poly(ast.parse("max(0, np.max(dm_delays))", mode="eval").body)
             loops_ = [p_ for p_ in _ancestors(st) if isinstance(p_, ast.For)]
-            idx_ = [norm(l_.target) for l_ in reversed(loops_)]
-            if len(idx_) == 2:
-                this_shift = env().poly(ast.parse(f"dm_delays[{idx_[0]}, {idx_[1]}]", mode="eval").body)
-                alt_shift = env().poly(ast.parse(f"dm_delays[{idx_[0]}][{idx_[1]}]", mode="eval").body)
-                ok_origin = (lo + this_shift == origin) or (lo + alt_shift == origin)
-                (res.ok if ok_origin else res.bad)("R4", dv, st, "every row starts at input column (max positive shift over all DMs) - (this channel's shift): one time origin" if ok_origin else
-                                                   f"the slice of row [{', '.join(idx_)}] starts at `{lo.canon()[:120]}`, not at max(0, max over ALL delays) - dm_delays[{idx_[0]}, {idx_[1]}]: "
-                                                   "the DM rows no longer share one time origin", key="dmt_block_valid:origin")
+            # what is subtracted from the common origin must be THIS row's, this channel's delay: dm_delays[idm, irow] in either
+            # subscript spelling, or the element a loop over dm_delays[idm] yields
+            diff_ = origin - lo
+            syms_ = sorted(diff_.symbols())
+            ok_origin = False
+            shown_ = diff_.canon()[:80]
+            if len(syms_) == 1 and diff_ == Poly.sym(syms_[0]) and len(loops_) == 2:
+                inner_, outer_ = loops_[0], loops_[1]
+                oi_ = norm(outer_.target) if isinstance(outer_.target, ast.Name) else None
+                it_ = inner_.iter
+                elem_of_row = None
+                if isinstance(it_, ast.Call) and dotted(it_.func) == "enumerate" and it_.args and isinstance(inner_.target, ast.Tuple) and len(inner_.target.elts) == 2:
+                    if norm(it_.args[0]) == f"dm_delays[{oi_}]":
+                        elem_of_row = norm(inner_.target.elts[1])
+                elif norm(it_) == f"dm_delays[{oi_}]" and isinstance(inner_.target, ast.Name):
+                    elem_of_row = norm(inner_.target)
+                ii_ = norm(inner_.target) if isinstance(inner_.target, ast.Name) else (norm(inner_.target.elts[0]) if isinstance(inner_.target, ast.Tuple) else None)
+                accepted = {env().poly(ast.parse(t_, mode="eval").body).canon() for t_ in (f"dm_delays[{oi_}, {ii_}]", f"dm_delays[{oi_}][{ii_}]") if oi_ and ii_}
+                ok_origin = diff_.canon() in accepted or (elem_of_row is not None and syms_[0] == elem_of_row)
+            (res.ok if ok_origin else res.bad)("R4", dv, st, "every row starts at input column (max positive shift over all DMs) - (this channel's delay at this DM): one time origin" if ok_origin else
+                                               f"the slice starts at `{lo.canon()[:120]}`: (max positive shift over ALL delays) minus it is `{shown_}`, not this channel's delay at this DM - "
+                                               "the DM rows no longer share one time origin", key="dmt_block_valid:origin")
         else:
             res.bad("R4", dv, st, "cannot determine the width of the row assigned", key=key)
             continue
